@@ -11,6 +11,7 @@ import (
 	"github.com/hslam/socket"
 	"io"
 	"runtime"
+	"sort"
 	"sync"
 )
 
@@ -296,12 +297,33 @@ func (conn *Conn) recv() {
 		}
 	}
 	// Responses that were completely received before the read failed are still
-	// delivered: drain the decode queue before failing what is left.
+	// delivered, in the order they arrived: drain the decode queue before failing
+	// what is left (closing it while it is busy would decode the waiting responses
+	// on this goroutine, ahead of the one its worker is handling).
+	drain(pipeline)
 	pipeline.Close()
+	if conn.readSched != nil {
+		// pipelining: the completions already queued are signalled before the failures
+		drain(conn.readSched)
+	}
 	conn.mutex.Lock()
 	conn.shutdown = true
 	if err == io.EOF {
 		err = ErrShutdown
+	}
+	if conn.readSched != nil {
+		// pipelining: the outstanding calls fail in the order they were issued
+		order := &issueOrder{next: conn.seq}
+		for seq := range conn.pending {
+			order.seqs = append(order.seqs, seq)
+		}
+		sort.Sort(order)
+		for _, seq := range order.seqs {
+			call := conn.pending[seq]
+			delete(conn.pending, seq)
+			call.Error = err
+			call.done()
+		}
 	}
 	for seq, call := range conn.pending {
 		delete(conn.pending, seq)
@@ -324,6 +346,17 @@ func (conn *Conn) recv() {
 		conn.readStream.Close()
 	}
 }
+
+// issueOrder sorts sequence numbers of outstanding calls by age, oldest first; next is the
+// number the connection would assign next (sequence numbers wrap around).
+type issueOrder struct {
+	seqs []uint64
+	next uint64
+}
+
+func (o *issueOrder) Len() int           { return len(o.seqs) }
+func (o *issueOrder) Less(i, j int) bool { return o.seqs[i]-o.next < o.seqs[j]-o.next }
+func (o *issueOrder) Swap(i, j int)      { o.seqs[i], o.seqs[j] = o.seqs[j], o.seqs[i] }
 
 func (conn *Conn) read(ctx *Context, async bool) {
 	var err error
